@@ -639,12 +639,18 @@ sfd_tran_ep_close(void *arg)
 	NNI_LIST_FOREACH (&ep->negopipes, p) {
 		sfd_tran_pipe_close(p);
 	}
-	NNI_LIST_FOREACH (&ep->waitpipes, p) {
-		sfd_tran_pipe_close(p);
-	}
 	if (ep->useraio != NULL) {
 		nni_aio_finish_error(ep->useraio, NNG_ECLOSED);
 		ep->useraio = NULL;
+	}
+	// Pipes that finished negotiating but were never handed to the
+	// socket still carry the reference taken for that hand-off.
+	while ((p = nni_list_first(&ep->waitpipes)) != NULL) {
+		nni_list_remove(&ep->waitpipes, p);
+		nni_mtx_unlock(&ep->mtx);
+		nni_pipe_close(p->npipe);
+		nni_pipe_rele(p->npipe);
+		nni_mtx_lock(&ep->mtx);
 	}
 
 	nni_mtx_unlock(&ep->mtx);
